@@ -494,6 +494,6 @@ func main() {
 		Corpus:   corpus,
 		Gen:      gen,
 		Run:      run,
-		ShardLen: 100,
+		ShardLen: 60,
 	})
 }
